@@ -73,7 +73,8 @@ def _is_wildcard_candidate(
     min_: Version, max_: Version, *, inverted: bool = False
 ) -> bool:
     if (
-        min_.is_local()
+        min_.epoch != max_.epoch
+        or min_.is_local()
         or max_.is_local()
         or min_.is_prerelease()
         or max_.is_prerelease()
@@ -129,5 +130,7 @@ def _single_wildcard_range_string(first: Version, second: Version) -> str:
         parts[-1] = parts[-1] - 1
 
         base_version = ".".join(str(part) for part in parts)
+        if second.epoch:
+            base_version = f"{second.epoch}!{base_version}"
 
     return f"{base_version}.*"
